@@ -4,6 +4,9 @@ import LocustModel.Lemmas.C02Combine
 import LocustModel.Lemmas.C02Agg
 import LocustModel.Lemmas.C02Sql
 import LocustModel.Lemmas.C05Val
+import LocustModel.Query.StreamOps
+import LocustModel.Lemmas.C02Stream
+import LocustModel.Lemmas.C02Live
 /-
   C02 — query results do not depend on physical layout.  PROPERTY THEOREMS.
 
@@ -347,5 +350,112 @@ example : groupX .sum [(2, some 5), (1, none), (2, some 7), (1, some 3)] = [(1, 
 example : (Tree.node (.leaf (groupX .sum [(2, some 5), (1, none)])) (.leaf (groupX .sum [(2, some 7), (1, some 3)]))).eval (mergeX .sum)
     = [(1, some 3), (2, some 12)] := by
   simp [Tree.eval, groupX, mergeX, combineX]
+
+/-! ## 7. Liveness of the schedule: one entry, full range — for EVERY assignment of partitions to workers -/
+
+/-- `QueryTask` hands every partition to exactly one worker exactly once (`next_partition` increments a shared index):
+    the per-worker completion orders `assignment`, concatenated, are a permutation of `0 .. n-1`.  Then — whatever the
+    assignment and the completion orders — the merging of `QueryTask::run` + `push_result` + the final
+    `combine_results(.., require_same_level = false)` ends with EXACTLY ONE entry, and it covers all partitions
+    (`owned_results.len() == 1` is not an assumption but a consequence). -/
+theorem C02_schedule_live {α : Type} (f : α → α → α) (parts : List α) (assignment : List (List Nat))
+    (hne : parts ≠ []) (hperm : assignment.flatten.Perm (List.range parts.length)) :
+    ∃ s, schedule f parts assignment = [s] ∧ s.lo = 0 ∧ s.hi = parts.length :=
+  schedule_live f parts assignment hne hperm
+
+/-- Hence the select answer of EVERY complete schedule is the canonical one (no hypothesis on how the schedule ends). -/
+theorem C02_schedule_select_total {ρ : Type} (limit offset : Nat) (parts : List (List ρ)) (assignment : List (List Nat))
+    (hne : parts ≠ []) (hperm : assignment.flatten.Perm (List.range parts.length)) :
+    ∃ s, schedule (combineSel (limit + offset)) parts assignment = [s] ∧
+      outputSlice limit offset s.val = outputSlice limit offset parts.flatten := by
+  obtain ⟨s, hs, hlo, hhi⟩ := C02_schedule_live (combineSel (limit + offset)) parts assignment hne hperm
+  exact ⟨s, hs, C02_schedule_select limit offset parts assignment s hs hlo hhi⟩
+
+/-- … and so is the ORDER BY answer, ties included. -/
+theorem C02_schedule_sort_total {α : Type} (le : α → α → Bool) (h : TotalPre le) (limit offset : Nat)
+    (parts : List (List α)) (assignment : List (List Nat))
+    (hne : parts ≠ []) (hperm : assignment.flatten.Perm (List.range parts.length)) :
+    ∃ s, schedule (combineSort le (limit + offset)) parts assignment = [s] ∧
+      outputSlice limit offset s.val = outputSlice limit offset (mergeList le parts) := by
+  obtain ⟨s, hs, hlo, hhi⟩ := C02_schedule_live (combineSort le (limit + offset)) parts assignment hne hperm
+  exact ⟨s, hs, C02_schedule_sort le h limit offset parts assignment s hs hlo hhi⟩
+
+/-- … and the grouped answer (exact level): the merge of the partition results in row-range order. -/
+theorem C02_schedule_agg_total (op : Agg) (parts : List (List (Int × Option Int))) (assignment : List (List Nat))
+    (hne : parts ≠ []) (hperm : assignment.flatten.Perm (List.range parts.length)) :
+    ∃ s, schedule (mergeX op) parts assignment = [s] ∧ s.val = mergeXList op parts := by
+  obtain ⟨s, hs, hlo, hhi⟩ := C02_schedule_live (mergeX op) parts assignment hne hperm
+  obtain ⟨_, _, t, ht, hv⟩ := C02_schedule_tree (mergeX op) parts assignment s (by simp [hs])
+  rw [hlo, hhi] at ht
+  simp only [List.drop_zero, Nat.sub_zero, List.take_length] at ht
+  exact ⟨s, hs, by rw [hv, C02_combine_assoc_agg, ht]⟩
+
+-- three workers, five partitions, interleaved completion orders: a permutation of 0..4, one entry [0,5)
+example : ([[3, 0], [4], [1, 2]] : List (List Nat)).flatten.Perm (List.range 5) := by decide
+example : (schedule (combineSel 10) [[1], [2], [3], [4], [5]] [[3, 0], [4], [1, 2]]).map (fun s => (s.lo, s.hi, s.val))
+    = [(0, 5, [1, 2, 3, 4, 5])] := by decide
+
+/-! ## 8. The remaining operators of a streaming stage (Query/StreamOps.lean) -/
+
+open LM.StreamOps in
+/-- The chunk law for the block buffers behind a streaming stage (`BufferStream`, `BufferStreamNull`, the repaired
+    `BufferStreamNullable`), `Select` / `SelectNullable` with streamed indices (streaming and block output), `Compact`
+    and `merge_keep` (carried read positions): with `C02_stream_chunks` none of them can see a chunk boundary. -/
+theorem C02_stream_ops2_lawful :
+    (∀ {α : Type}, (bufferStreamOp (α := α)).Lawful) ∧ (∀ {α : Type}, (bufferNullOp (α := α)).Lawful) ∧
+    (∀ {α : Type}, (bufferNullableOp (α := α)).Lawful) ∧
+    (∀ {α : Type} (data : List α), (selectOp data).Lawful) ∧ (∀ {α : Type} (data : List α), (selectBlockOp data).Lawful) ∧
+    (∀ {α : Type} (data : List (α × Bool)), (selectNullableOp data).Lawful) ∧
+    (∀ {α : Type}, (compactOp (α := α)).Lawful) ∧ (∀ {α : Type} (left right : List α), (mergeKeepOp left right).Lawful) :=
+  ⟨bufferStreamOp_lawful, bufferNullOp_lawful, bufferNullableOp_lawful, fun d => selectOp_lawful d,
+   fun d => selectBlockOp_lawful d, fun d => selectNullableOp_lawful d, compactOp_lawful, fun l r => mergeKeepOp_lawful l r⟩
+
+open LM.StreamOps in
+/-- What a blocking consumer finds in the nullable block buffer after ANY chunking of the stage's output: all the data
+    in order, and presence bit `i` set exactly when element `i` of the whole stream is present — in particular when
+    chunk lengths are not multiples of 8 (the output of a WHERE filter). -/
+theorem C02_buffer_nullable_content {α : Type} (chunks : List (List (α × Bool))) :
+    (bufferNullableOp.runChunks ([], []) chunks).1.1 = chunks.flatten.map (·.1) ∧
+    ∀ i, i ∈ (bufferNullableOp.runChunks ([], []) chunks).1.2 ↔ ∃ x, chunks.flatten[i]? = some (x, true) := by
+  rw [C02_stream_chunks _ bufferNullableOp_lawful]
+  refine ⟨by simp [bufferNullableOp], ?_⟩
+  intro i
+  simp only [bufferNullableOp, List.nil_append, List.length_nil, Nat.add_zero, List.map_id']
+  exact mem_presentIdx _ i
+
+open LM.StreamOps in
+/-- The operator as it was before /repo 54594d7 (presence BYTES of every chunk appended) violates the chunk law: two
+    one-element chunks put the second presence bit at position 8 instead of 1.  (Defect `buffer-stream-nullable`,
+    repaired; the witness of the real code is the corpus class of that name.) -/
+theorem C02_buffer_nullable_old_refuted : ¬ (bufferNullableOld (α := Nat)).Lawful := by
+  intro h
+  have := h.2 ([], [], 0) [(10, true)] [(20, true)]
+  revert this
+  decide
+
+open LM.StreamOps in
+example : (bufferNullableOp.runChunks (([] : List Nat), []) [[(10, true), (11, false), (12, true)], [(20, true)]]).1
+    = ([10, 11, 12, 20], [0, 2, 3]) := by decide
+open LM.StreamOps in
+example : (bufferNullableOld.runChunks (([] : List Nat), [], 0) [[(10, true), (11, false), (12, true)], [(20, true)]]).1
+    = ([10, 11, 12, 20], [0, 2, 8], 2) := by decide
+
+open LM.StreamOps in
+/-- LATENT (model level, no plan observed that reaches it): `SelectNullable::execute(stream = false)` called once per chunk
+    — block output inside a streaming stage — accumulates the data but sets presence bits at chunk-relative positions,
+    so it does NOT satisfy the chunk law.  Every `SelectNullable` the differential has seen has a streaming consumer
+    (`FuseNulls`, `NullableToVal`) and therefore runs with `stream = true`, which is lawful (`C02_stream_ops2_lawful`). -/
+theorem C02_select_nullable_block_refuted :
+    ¬ (selectNullableBlockOp [((10 : Nat), true), (20, false)]).Lawful := by
+  intro h
+  have := h.2 ([], []) [1] [0]
+  revert this
+  decide
+
+open LM.StreamOps in
+example : (mergeKeepOp [1, 3, 5] [2, 4]).runChunks (0, 0) [[true, false], [true, false, true]]
+    = ((3, 2), [some 1, some 2, some 3, some 4, some 5]) := by decide
+open LM.StreamOps in
+example : compact [10, 20, 30, 40] [1, 0, 2] = [10, 30] := by decide
 
 end LM.C02
